@@ -16,7 +16,8 @@ import ast
 from translate import pylite as P
 
 PROPERTIES = ["C05"]
-OUTPUTS = ["IdentityGen.v"]
+OUTPUTS = ["IdentityGen.v"]      # on failure only this file is replaced by the stub (then nothing of C05 builds); on success generate()
+                                 # also refreshes gen/NegCodecGen.v (C13), which the C05 closure imports
 
 U = P.Untranslatable
 
@@ -1156,6 +1157,126 @@ def gen_trackers(out):
                "Definition known_clid_url_policy : known_clid_url := %s." % policy)
 
 
+def gen_keys(out):
+    """the key path of Tub.getReference, statement by statement: TubRef's identity (_distinguishers / __eq__ / __hash__), which TubRef is
+    built from the parsed FURL, which TubRef a negotiated connection is stored under, and how Tub.getBrokerForTubRef finds one for the
+    other"""
+    rm = P.load("referenceable.py")
+    pm = P.load("pb.py")
+    FIELD = {"self.tubID": "sr_tub", "self.locationHints": "sr_hints"}
+    # TubRef identity (the same reading as translate/g_furl.py makes for C20, kept here so that C05 does not depend on the translation
+    # of furl.py / base32.py): the tuple returned by _distinguishers, and __eq__ / __ne__ / __hash__ going through it
+    dd = P.find_def(rm, "TubRef._distinguishers")
+    rets = [n for n in ast.walk(dd) if isinstance(n, ast.Return)]
+    body_d = [x for x in dd.body if not (isinstance(x, ast.Expr) and isinstance(x.value, ast.Constant))]
+    if len(rets) != 1 or body_d != rets or not isinstance(rets[0].value, ast.Tuple):
+        raise U("TubRef._distinguishers is no longer a single `return (<fields>,)`")
+    KF = {"self.tubID": "KTubID", "self.locationHints": "KHints"}
+    fields = []
+    for e in rets[0].value.elts:
+        if un(e) not in KF:
+            raise U("TubRef._distinguishers uses %s" % un(e))
+        fields.append(KF[un(e)])
+
+    def single_return(qual, forms):
+        f = P.find_def(rm, qual)
+        b = [x for x in f.body if not (isinstance(x, ast.Expr) and isinstance(x.value, ast.Constant))]
+        if len(b) != 1 or not isinstance(b[0], ast.Return) or " ".join(un(b[0].value).split()) not in forms:
+            raise U("%s changed: %s" % (qual, un(f)[:120]))
+    single_return("TubRef.__eq__", ["type(self) is type(them) and self.__class__ == them.__class__ and (self._distinguishers() == them._distinguishers())",
+                                     "type(self) is type(them) and self.__class__ == them.__class__ and self._distinguishers() == them._distinguishers()"])
+    single_return("TubRef.__hash__", ["hash(self._distinguishers())"])
+    single_return("TubRef.__ne__", ["not self == them"])
+    out.append("(* TubRef._distinguishers: the tuple that __eq__ compares and __hash__ hashes *)\n"
+               "Inductive kfield := KTubID | KHints.\nDefinition tubref_distinguishers : list kfield := [%s]." % "; ".join(fields))
+    out.append("(* a TubRef / the part of a SturdyRef that matters here *)\n"
+               "Record sref := { sr_tub : option (list Z); sr_hints : list (list Z); sr_name : option (list Z) }.")
+    # TubRef.__init__(tubID, locationHints=None): which attribute each parameter ends up in
+    ti = P.find_def(rm, "TubRef.__init__")
+    if [a.arg for a in ti.args.args] != ["self", "tubID", "locationHints"] or [un(d) for d in ti.args.defaults] != ["None"]:
+        raise U("TubRef.__init__ signature changed")
+    body = [x for x in ti.body if not isinstance(x, ast.Assert) and not (isinstance(x, ast.Expr) and isinstance(x.value, ast.Constant))]
+    want = ["if locationHints is None:\n    locationHints = []", "self.tubID = tubID and six.ensure_str(tubID)", "self.locationHints = locationHints"]
+    if [un(x) for x in body] != want:
+        raise U("TubRef.__init__ body changed: %r" % [un(x) for x in body])
+    # SturdyRef.getTubRef
+    gt = P.find_def(rm, "SturdyRef.getTubRef")
+    gb = [x for x in gt.body if not (isinstance(x, ast.Expr) and isinstance(x.value, ast.Constant))]
+    if len(gb) != 1 or not isinstance(gb[0], ast.Return) or not isinstance(gb[0].value, ast.Call) or un(gb[0].value.func) != "TubRef" \
+            or gb[0].value.keywords or not 1 <= len(gb[0].value.args) <= 2:
+        raise U("SturdyRef.getTubRef is no longer `return TubRef(<tubID>[, <hints>])`")
+    args = [un(a) for a in gb[0].value.args]
+    for a in args:
+        if a not in FIELD:
+            raise U("SturdyRef.getTubRef passes %s" % a)
+    tub_src = FIELD[args[0]]
+    hints_src = FIELD[args[1]] if len(args) == 2 else None
+    if tub_src != "sr_tub" or hints_src not in (None, "sr_hints"):
+        # a list where a string is expected (or the reverse) is a TypeError at run time, not a key
+        raise U("SturdyRef.getTubRef builds TubRef(%s)" % ", ".join(args))
+    out.append("(* SturdyRef.getTubRef + TubRef.__init__: the TubRef made from a parsed FURL *)\n"
+               "Definition sturdy_getTubRef (s : sref) : sref :=\n"
+               " {| sr_tub := %s s; sr_hints := %s; sr_name := None |}."
+               % (tub_src, "sr_hints s" if hints_src else "[]"))
+    # evaluateNegotiationVersion1: theirTubRef = referenceable.TubRef(theirTubID)   (checked present by gen_ev1's pattern)
+    out.append("(* evaluateNegotiationVersion1: referenceable.TubRef(theirTubID) -- no location hints *)\n"
+               "Definition tubref_of_id (t : list Z) : sref := {| sr_tub := Some t; sr_hints := []; sr_name := None |}.")
+    # Tub._getReference: the key handed to getBrokerForTubRef
+    gr = P.find_def(pm, "Tub._getReference")
+    calls = [n for n in ast.walk(gr) if isinstance(n, ast.Call) and un(n.func) == "self.getBrokerForTubRef"]
+    if len(calls) != 1 or [un(a) for a in calls[0].args] != ["sturdy.getTubRef()"] or calls[0].keywords:
+        raise U("Tub._getReference: getBrokerForTubRef is no longer called with sturdy.getTubRef()")
+    out.append("(* Tub._getReference: self.getBrokerForTubRef(sturdy.getTubRef()) *)\n"
+               "Definition getReference_key (s : sref) : sref := sturdy_getTubRef s.")
+    # Tub.getBrokerForTubRef: the decision, statement by statement
+    gf = P.find_def(pm, "Tub.getBrokerForTubRef")
+    if [a.arg for a in gf.args.args] != ["self", "tubref"]:
+        raise U("Tub.getBrokerForTubRef signature changed")
+    for n in ast.walk(gf):
+        if isinstance(n, ast.Name) and n.id == "tubref" and not isinstance(n.ctx, ast.Load):
+            raise U("Tub.getBrokerForTubRef rebinds tubref")
+    st = [x for x in gf.body if not (isinstance(x, ast.Expr) and isinstance(x.value, ast.Constant))]
+
+    def outcome(stmts):
+        """-> gallina term of type gb_outcome for the statements from here to the end of the method"""
+        if not stmts:
+            raise U("Tub.getBrokerForTubRef: falls off the end")
+        x = stmts[0]
+        if isinstance(x, ast.If) and not x.orelse:
+            t = un(x.test)
+            if t == "tubref in self.brokers":
+                c = "in_brokers"
+            elif t in ("tubref.getTubID() == self.tubID", "self.tubID == tubref.getTubID()"):
+                c = "tubid_is_mine"
+            elif t in ("tubref not in self.waitingForBrokers", "tubref not in self.tubConnectors"):
+                return outcome(stmts[1:])          # bookkeeping of the waiting path (keys: the same parameter)
+            else:
+                raise U("Tub.getBrokerForTubRef: test `%s`" % t)
+            return "(if %s then %s else %s)" % (c, outcome(x.body), outcome(stmts[1:]))
+        u = un(x)
+        if u == "return defer.succeed(self.brokers[tubref])":
+            return "GbExisting"
+        if u == "b = self._createLoopbackBroker(tubref)":
+            if un(stmts[-1]) != "return defer.succeed(b)":
+                raise U("Tub.getBrokerForTubRef: loopback branch changed")
+            return "GbLoopback"
+        if u == "d = defer.Deferred()":
+            rest = [un(y) for y in stmts[1:]]
+            if rest[-1] != "return d" or "self.waitingForBrokers[tubref].append(d)" not in rest:
+                raise U("Tub.getBrokerForTubRef: waiting branch changed")
+            return "GbWait"
+        raise U("Tub.getBrokerForTubRef: unrecognised statement `%s`" % u[:70])
+    out.append("Inductive gb_outcome := GbExisting | GbLoopback | GbWait.\n"
+               "(* Tub.getBrokerForTubRef: answered from Tub.brokers / by a new loopback Broker / later, by brokerAttached *)\n"
+               "Definition getBroker_decide (in_brokers tubid_is_mine : bool) : gb_outcome :=\n %s." % outcome(st))
+    lb = un(P.find_def(pm, "Tub._createLoopbackBroker"))
+    if "self.brokerAttached(tubref, b1, False)" not in lb or "return b1" not in lb:
+        raise U("Tub._createLoopbackBroker no longer registers b1 under the requested tubref")
+    tc = un(P.find_def(P.load("connection.py"), "TubConnector.__init__"))
+    if "self.target = tubref" not in tc:
+        raise U("TubConnector.__init__ no longer keeps the requested TubRef as self.target")
+
+
 def generate():
     mod = P.load("negotiate.py")
     out = [P.PRELUDE % dict(src="negotiate.py, pb.py, referenceable.py, broker.py") + "Require Import Verif.lib.NegBytes.\n"]
@@ -1177,4 +1298,9 @@ def generate():
     gen_plaintext(mod, out)
     gen_dispatch(mod, out)
     gen_trackers(out)
-    return {"IdentityGen.v": "\n\n".join(out) + "\n"}
+    gen_keys(out)
+    # the byte-level model of C05 is instantiated with C13's translated message codec (parseLines, block keys): regenerate it
+    # here too so that `--only C05` never builds against a stale copy (same generator, same text; nothing of it is edited)
+    from translate import g_negcodec
+    codec = g_negcodec.generate()["NegCodecGen.v"]
+    return {"IdentityGen.v": "\n\n".join(out) + "\n", "NegCodecGen.v": codec}
